@@ -6,7 +6,7 @@ import ast
 
 from ..classes import CORE, OPERATOR_BASE
 from ..kinds import Lin
-from ..linform import InterpRaise, NonLinear
+from ..linform import InterpRaise, LossyCoefficient, NonLinear
 from ..loader import AnalysisError, Incomplete, World
 from ..mutate import edit_def, replace_expr
 from ..opkinds import all_mv
@@ -113,6 +113,8 @@ def run(ctx, ck) -> None:
             n += 1
             ck.expect('T4', Rt == R.T, f'{pol.rott.qual}.mv', 'the hand-written transposed rotation is the matrix transpose of the rotation, for all angles',
                       f'QURotationTransposeOperator.mv denotes {Rt}, the transpose of the rotation is {R.T}', instance=f'kind {L}')
+        except LossyCoefficient as exc:
+            ck.incomplete('T4', f'{pol.rott.qual}.mv', f'the exact matrices are not defined for every data dtype: {exc}', instance=f'kind {L}')
         except (NonLinear, InterpRaise) as exc:
             ck.bad('T4', f'{pol.rott.qual}.mv', f'cannot derive the matrix: {exc}', instance=f'kind {L}')
         except Incomplete as exc:
